@@ -231,4 +231,41 @@ def C08(rep):
                         "Layer A (specs/topic/TopicA.tla) is written from the property text"]
 
 
-RECIPES = {"C08": C08, "C07": C07, "C01": C01, "C02": C02, "C03": C03, "C04": C04, "C05": C05, "C06": C06, "C09": C09}
+def _validate_simple(rep, area, module, path, label):
+    hs = C.split_histories(path)
+    r = C.validate_histories(os.path.join(C.SPECS, area), module, module + ".cfg", hs)
+    rep.validated += r["validated"]
+    rep.accepted += r["accepted"]
+    for v in r["violations"]:
+        rep.violations.append({"what": "history rejected by Layer A (%s) at record %d: %s" % (module, v["record_index"], v["record"]),
+                               "replay": {"kind": area + "-history", "spec": "%s/%s" % (area, module), "driver": label,
+                                          "first_unmatched_record": v["record_index"], "history": hs[v["history"]]}})
+    if hs and len(rep.samples) < 3:
+        rep.samples.append({"driver": label, "history_head": [json.loads(x) for x in hs[0][:16]]})
+    return r
+
+
+def C10(rep):
+    for cfg in (["MC_LockA_mutex_full.cfg", "MC_LockA_rwlock_quick.cfg"] if rep.tier == "quick"
+                else ["MC_LockA_mutex_full.cfg", "MC_LockA_rwlock_full.cfg"]):
+        add_mc(rep, mc_cached("lock", "MC_LockA", cfg, ["LockA.tla"], workers=4))
+    wd = C.workdir()
+    out = os.path.join(wd, "lockseq_%d.ndjson" % time.time_ns())
+    st = C.run_fv(["lock-seq", "--programs", n(rep.tier, 120, 3000), "--ops", 80, "--seed", rep.seed + 31, "--out", out], timeout=3000)
+    rep.extra.setdefault("driver_stats", []).append(dict(st, driver="lock-seq"))
+    _validate_simple(rep, "lock", "LockTrace", out, "lock-seq")
+    os.unlink(out)
+    out = os.path.join(wd, "locksched_%d.ndjson" % time.time_ns())
+    st = C.run_fv(["lock-sched", "--runs", n(rep.tier, 400, 12000), "--seed", rep.seed + 32, "--out", out], timeout=3000)
+    rep.extra.setdefault("driver_stats", []).append(dict(st, driver="lock-sched"))
+    if st.get("stuck", 0) or st.get("step_limit", 0):
+        rep.inconclusive.append("lock-sched: %d stuck, %d step-limit runs not judged" % (st.get("stuck", 0), st.get("step_limit", 0)))
+    _validate_simple(rep, "lock", "LockTrace", out, "lock-sched")
+    os.unlink(out)
+    rep.assumptions += ["Layer A (specs/lock/LockA.tla) is written from the property text",
+                        "mutual exclusion is judged from the order of acquire / release records (release announced before and confirmed after the guard drop), not from the lock's own state",
+                        "writer-not-starved is checked as liveness of the abstract model under weak fairness only; on the code, schedules are sampled (random / PCT), fairness is not enforced",
+                        "sequentially consistent interleavings only"]
+
+
+RECIPES = {"C10": C10, "C08": C08, "C07": C07, "C01": C01, "C02": C02, "C03": C03, "C04": C04, "C05": C05, "C06": C06, "C09": C09}
